@@ -731,6 +731,67 @@ class Interp:
         return carry + stacked
 
 
+# ----------------------------------------------------------------------------
+# an *uninterpreted* JAX primitive: lets real higher-order code (smap, lmap, vmap, leapfrog, ...) be traced
+# with an arbitrary function argument; the interpreter maps every application to B.ufun (fresh symbols + congruence)
+
+try:
+    from jax.extend.core import Primitive as _Primitive
+except Exception:  # pragma: no cover
+    from jax.core import Primitive as _Primitive
+from jax.interpreters import batching as _batching
+
+uf_p = _Primitive("vf_uf")
+
+
+def _uf_abstract(x, *, name, out_shape, nbatch):
+    from jax.core import ShapedArray
+    return ShapedArray(tuple(x.shape[:nbatch]) + tuple(out_shape), x.dtype)
+
+
+uf_p.def_abstract_eval(_uf_abstract)
+
+
+def _uf_batch(args, dims, *, name, out_shape, nbatch):
+    (x,), (d,) = args, dims
+    x = jnp.moveaxis(x, d, 0)
+    return uf_p.bind(x, name=name, out_shape=out_shape, nbatch=nbatch + 1), 0
+
+
+_batching.primitive_batchers[uf_p] = _uf_batch
+
+
+def make_uf(B, name, out_shape):
+    """an arbitrary function  R^k -> R^out_shape  (k = size of the single array argument).
+    symbolic back end: uninterpreted (every application yields fresh symbols, equal arguments give equal values);
+    concrete back end (replay): a fixed generic smooth function."""
+    out_shape = tuple(out_shape)
+    m = int(np.prod(out_shape)) if out_shape else 1
+    if B.mode == "sym":
+        return lambda x: uf_p.bind(jnp.asarray(x), name=name, out_shape=out_shape, nbatch=0)
+    rng = np.random.default_rng(abs(hash(name)) % (2 ** 31))
+
+    def f(x):
+        x = jnp.ravel(x)
+        w = jnp.asarray(rng.normal(size=(m, x.shape[0])))
+        w = jnp.asarray(np.random.default_rng(len(name) + m).normal(size=(m, x.shape[0])))
+        return (jnp.sin(w @ x) + (w @ x) ** 2).reshape(out_shape)
+    return f
+
+
+def _p_vf_uf(self, ins, params, eqn):
+    x = _asobj(ins[0])
+    nb, out_shape, name = params["nbatch"], tuple(params["out_shape"]), params["name"]
+    bshape = x.shape[:nb]
+    m = int(np.prod(out_shape)) if out_shape else 1
+    out = np.empty(bshape + (m,), dtype=object)
+    for bidx in np.ndindex(*bshape):
+        args = list(x[bidx].reshape(-1))
+        for j in range(m):
+            out[bidx + (j,)] = self.B.ufun(f"{name}{j}", args)
+    return [out.reshape(bshape + out_shape)]
+
+
 def _asobj(v):
     if is_sym(v):
         return v
@@ -773,6 +834,7 @@ def jcall(B, fn, *args, while_bound=4, interp=None):
     closed, out_shape = jax.make_jaxpr(flat_fn, return_shape=True)(*examples)
     STATS["jaxprs"] += 1
     it = interp or Interp(while_bound=while_bound)
+    it.B = B
     outs = it.eval_closed(closed, *leaves)
     for cnd in it.unwinding:
         B.holds("unwinding assertion: loop bound sufficient", ~cnd if isinstance(cnd, SB) else (not cnd))
@@ -803,3 +865,6 @@ def validate(fn, *args, rtol=1e-9, seed=0):
         n += 1
     STATS["validated"] += n
     return n
+
+
+Interp.p_vf_uf = _p_vf_uf
